@@ -304,6 +304,11 @@ class PolyEnv:
     def atom_name(self, e: ast.AST) -> str:
         if isinstance(e, ast.Subscript):
             return f"{self.atom_name(e.value) if not isinstance(e.value, (ast.Name, ast.Attribute)) else self.poly(e.value).canon()}[{self._slice(e.slice)}]"
+        if isinstance(e, ast.Call) and dotted(e.func) in ("tuple", "list") and len(e.args) == 1 and not e.keywords:
+            inner = self.atom_name(e.args[0]) if isinstance(e.args[0], (ast.List, ast.Tuple, ast.ListComp, ast.GeneratorExp)) else None
+            if inner is not None and inner[:1] in "[(" and inner[-1:] in "])":
+                # tuple([...]) / list((...)) of a literal sequence is that sequence
+                return ("(" + inner[1:-1] + ")") if dotted(e.func) == "tuple" else ("[" + inner[1:-1] + "]")
         if isinstance(e, ast.Call):
             fn = dotted(e.func) or self.atom_name(e.func)
             pos = list(e.args)
@@ -374,9 +379,21 @@ class PolyEnv:
         return " ".join(ast.unparse(e).split())
 
     def _comprehension(self, e: ast.AST) -> str:
-        """Bound variables are named by position, the element and the iterables are in normal form."""
+        """Bound variables are named by position, the element and the iterables are in normal form.  A list
+        comprehension over a literal tuple/list is the list of its instances."""
         import copy
         e = copy.deepcopy(e)
+        if isinstance(e, (ast.ListComp, ast.GeneratorExp)) and len(e.generators) == 1 and not e.generators[0].ifs and \
+                isinstance(e.generators[0].iter, (ast.Tuple, ast.List)) and isinstance(e.generators[0].target, ast.Name) and \
+                not any(isinstance(x, ast.Starred) for x in e.generators[0].iter.elts):
+            var = e.generators[0].target.id
+            items = []
+            for inst in e.generators[0].iter.elts:
+                class S(ast.NodeTransformer):
+                    def visit_Name(self, node):  # noqa: N802
+                        return copy.deepcopy(inst) if node.id == var and isinstance(node.ctx, ast.Load) else node
+                items.append(self._arg(S().visit(copy.deepcopy(e.elt))))
+            return "[" + ", ".join(items) + "]"
         names: dict[str, str] = {}
         for g in e.generators:
             for n in ast.walk(g.target):
